@@ -16,7 +16,7 @@ PT = 'pyPRISM.core.PairTable:PairTable'
 VT = 'pyPRISM.core.ValueTable:ValueTable'
 TB = 'pyPRISM.core.Table:Table'
 SP = 'pyPRISM.core.Space:Space'
-LABELS = ['A', 'B', 'C', 'D']
+LABELS = ['C', 'A', 'D', 'B']      # deliberately not in alphabetical order: nothing may depend on the names' order
 import os as _os
 _THOROUGH = _os.environ.get('PYVC_TIER') == 'thorough'      # the thorough tier adds rank / type-list size 4
 SIZES = (1, 2, 3, 4) if _THOROUGH else (1, 2, 3)
@@ -73,7 +73,7 @@ def Table_listify(self, values):
 def _listify_cases():
     for kind in ('str', 'list', 'tuple', 'number', 'empty-list'):
         def build(f, kind=kind):
-            v = {'str': 'A', 'list': ['A', 'B'], 'tuple': ('B', 'A'), 'number': f.real('x'), 'empty-list': []}[kind]
+            v = {'str': LABELS[0], 'list': [LABELS[0], LABELS[1]], 'tuple': (LABELS[1], LABELS[0]), 'number': f.real('x'), 'empty-list': []}[kind]
             return dict(self=f.obj(TB), values=v)
         yield kind, build
 
@@ -146,11 +146,11 @@ def _pt_set_cases():
                         return dict(self=mk_PT(f, 'T', n, symmetric=sym), index=(k1, k2), value=f.ref('v'))
                     yield 'types=%d,symmetric=%s,key=%s,%s' % (n, sym, kname(k1), kname(k2)), build
     def build_none(f):
-        return dict(self=mk_PT(f, 'T', 2), index=('A', 'B'), value=None)
+        return dict(self=mk_PT(f, 'T', 2), index=(LABELS[0], LABELS[1]), value=None)
     yield 'types=2,assign None', build_none
     def build_list(f):
         # a mutable python value: the stored object must be a copy, also of the nested list
-        return dict(self=mk_PT(f, 'T', 2), index=(['A', 'B'], ['A', 'B']), value=[f.ref('x'), [f.ref('y')]])
+        return dict(self=mk_PT(f, 'T', 2), index=([LABELS[0], LABELS[1]], [LABELS[0], LABELS[1]]), value=[f.ref('x'), [f.ref('y')]])
     yield 'types=2,assign nested list to all pairs', build_list
 
 
@@ -281,7 +281,7 @@ def _pt_export_cases():
         for kind in ('arrays', 'one 0-d'):
             def build(f, n=n, kind=kind):
                 def mk(a, b):
-                    if kind == 'one 0-d' and (a, b) == ('A', 'A'):
+                    if kind == 'one 0-d' and (a, b) == (LABELS[0], LABELS[0]):
                         return f.array('w_%s%s' % (a, b), ())
                     return f.array('w_%s%s' % (a, b), (f.int('L_%s%s' % (a, b), lo=1),))
                 return dict(self=mk_PT(f, 'T', n, mk_val=mk), space=f.enum_sym('space', SP))
